@@ -66,7 +66,7 @@ def body(ck, F, cfg):
             if "unchecked" in last or (last.endswith("_uncompressed") and ("r1cs::proof" in p or "inner_product_proof" in p)):
                 bad.append((p, last))
     ck.require(not bad, "R11.3", "no-unchecked-codec", f"unchecked / uncompressed (de)serialisation used on proof paths: {bad}")
-    ck.floor("positive control: uncompressed transcript encodings", ctrl, 3)
+    ck.floor("positive control: uncompressed transcript encodings", ctrl, 1)  # the matcher must see at least one (3 on the reviewed tree)
     ck.floor("leaf fields", len(allf), 18)
 
 
